@@ -61,7 +61,7 @@ def run(ctx):
                 "non-trivial = tree has >= 1 split")
     c08.regen(ctx)
     ctx.do_prove()
-    nf = 60 if ctx.tier == "quick" else 500
+    nf = 80 if ctx.tier == "quick" else 600
     rs = np.random.RandomState(ctx.seed * 11 + 19)
     lines, texts, inputs = [], [], []
     how = "print_kauri_tree(Kauri(**params).fit(X, kernel), names) captured from stdout; harness.props.c19.parse_rules/eval_rules"
@@ -77,8 +77,12 @@ def run(ctx):
             ctx.count("fit-raised")
             continue
         d = X.shape[1]
-        mode = it % 3
+        mode = it % 4
         names = None if mode == 0 else [f"f{j}" for j in range(d + (2 if mode == 2 else 0))]
+        if mode == 3:
+            # names are arbitrary user strings: ones that contain the very tokens the printer emits must come out untouched
+            pool = ["age<=30", "x <= y", "a > b", "5<seniority<=15", "|=w", "Node 1", "Cluster: 0", "p>q<=r", "<=", "X[:, 9]"]
+            names = [pool[i] for i in rs.permutation(len(pool))[:d]]
         try:
             text = printed(model, names)
         except Exception as e:
@@ -86,7 +90,7 @@ def run(ctx):
             continue
         nsplits = (model.tree_.n_nodes - 1) // 2
         ctx.case((X.tobytes(), kern.tobytes(), repr(params), mode), nsplits >= 1, {"params": params, "names": names, "printed": text})
-        ctx.count(f"names:{['default', 'exact', 'extra'][mode]}")
+        ctx.count(f"names:{['default', 'exact', 'extra', 'adversarial'][mode]}")
         # oracle: read back and evaluate
         try:
             rules = parse_rules(text, names)
@@ -108,10 +112,11 @@ def run(ctx):
                 ctx.violation(f"printed rules give cluster {c} for {Q[r].tolist()}, predict gives {pq[r]}", "print",
                               {**inp, "names": names, "printed": text, "x": Q[r].tolist()}, key="print:unfaithful", how=how)
                 break
-        lines.append(c09.fit_line(X, kern, params, draws).replace("fit ", "print ", 1) + " " +
-                     (f"0" if names is None else f"{len(names)} " + " ".join(names)))
-        texts.append(text)
-        inputs.append({**inp, "names": names})
+        if mode != 3:       # the line protocol of the Lean printer separates names by blanks: adversarial names go to the oracle only
+            lines.append(c09.fit_line(X, kern, params, draws).replace("fit ", "print ", 1) + " " +
+                         (f"0" if names is None else f"{len(names)} " + " ".join(names)))
+            texts.append(text)
+            inputs.append({**inp, "names": names})
         # too few names are rejected (only meaningful when the tree uses a feature index beyond the list)
         used = sorted({f for f in model.tree_.features if f is not None})
         if used:
